@@ -205,21 +205,25 @@ func min(rawNums ...vals.Num) (vals.Num, error) {
 	}
 }
 
-func pow(base, exp vals.Num) vals.Num {
+func pow(base, exp vals.Num) (vals.Num, error) {
 	if isExact(base) && isExactInt(exp) {
 		// Produce exact result
+		if base == 0 && isNegative(exp) {
+			// 0 to a negative power is a division by exact zero.
+			return nil, eval.ErrDivideByZero
+		}
 		switch exp {
 		case 0:
-			return 1
+			return 1, nil
 		case 1:
-			return base
+			return base, nil
 		case -1:
-			return new(big.Rat).Inv(vals.PromoteToBigRat(base))
+			return new(big.Rat).Inv(vals.PromoteToBigRat(base)), nil
 		}
 		exp := vals.PromoteToBigInt(exp)
 		if isExactInt(base) && exp.Sign() > 0 {
 			base := vals.PromoteToBigInt(base)
-			return new(big.Int).Exp(base, exp, nil)
+			return new(big.Int).Exp(base, exp, nil), nil
 		}
 		base := vals.PromoteToBigRat(base)
 		if exp.Sign() < 0 {
@@ -228,13 +232,25 @@ func pow(base, exp vals.Num) vals.Num {
 		}
 		return new(big.Rat).SetFrac(
 			new(big.Int).Exp(base.Num(), exp, nil),
-			new(big.Int).Exp(base.Denom(), exp, nil))
+			new(big.Int).Exp(base.Denom(), exp, nil)), nil
 	}
 
 	// Produce inexact result
 	basef := vals.ConvertToFloat64(base)
 	expf := vals.ConvertToFloat64(exp)
-	return math.Pow(basef, expf)
+	return math.Pow(basef, expf), nil
+}
+
+// isNegative reports whether an exact integer is negative.
+func isNegative(n vals.Num) bool {
+	switch n := n.(type) {
+	case int:
+		return n < 0
+	case *big.Int:
+		return n.Sign() < 0
+	default:
+		return false
+	}
 }
 
 func isExact(n vals.Num) bool {
